@@ -267,8 +267,9 @@ func planAnchorRestore(p *Prog, in *inliner, plan *canonPlan, skipDecl map[*ast.
 			continue
 		}
 		c := cands[0]
-		// the wanted name must be free (or be the candidate's own)
-		if o := pk.Types.Scope().Lookup(want.Name); o != nil && o != types.Object(c.Obj) {
+		// the wanted name must be free (or be the candidate's own): in the package scope for a function, in the method
+		// set of the receiver for a method (a method may share its name with a package-level function)
+		if o := pk.Types.Scope().Lookup(want.Name); want.Recv == "" && o != nil && o != types.Object(c.Obj) {
 			continue
 		}
 		if want.Recv != "" {
